@@ -10,7 +10,9 @@
    "Fault at position k" = the call raises after its first k operations (`run_prefix k`): every operation boundary is a
    possible failure point, a superset of the real `raise` sites.
    Objects 0..nc-1 are the caller's arguments; parameter j is variable 2+j; variables 0 and 1 are the locals `data` / `tmp`.
-   The heap records, per object, which aspects were modified.  Aliasing inside pandas/duckdb internals is not modelled. *)
+   The heap records, per object, which aspects were modified.  Aliasing inside pandas/duckdb internals is not modelled.
+   `validate_impl`, `run_impl_o`, ... are faithful to the CURRENT code (the engine is compared with them on every run);
+   `validate_before_fix` is the code before the repair commit, kept only for the regression-witness theorems. *)
 From Coq Require Import List Bool Arith.
 Import ListNotations.
 
@@ -95,8 +97,8 @@ Record dfclass := mkDf {
   emptystr : bool    (* a non-String column holds "" *)
 }.
 
-(* faithful: `data` IS the caller's frame until `data = data.fillna(...)` rebinds it *)
-Definition validate_block_impl (i : nat) (c : dfclass) : list op :=
+(* BEFORE the fix (regression witness only): `data` WAS the caller's frame until `data = data.fillna(...)` rebound it *)
+Definition validate_block_before_fix (i : nat) (c : dfclass) : list op :=
   [ Alias vData (pDf i);
     Mutate vData TColsId;                 (* data.columns = pd.Index(bom_stripped) *)
     when (bom c) (Mutate vData TCols);
@@ -110,9 +112,21 @@ Definition validate_block_impl (i : nat) (c : dfclass) : list op :=
     Raise;                                (* 0-3-1-6 *)
     Raise ].                              (* 0-3-1-7 duplicates *)
 
-(* spec: work on a copy from the start *)
-Definition validate_block_spec (i : nat) (c : dfclass) : list op :=
-  Copy vData (pDf i) :: tl (validate_block_impl i c).
+(* CURRENT code: `data = data.rename(columns=<BOM-stripped>)` -- a new frame from the first line on; everything below
+   works on that copy (the label / column / value writes are the same statements as before) *)
+Definition validate_block_impl (i : nat) (c : dfclass) : list op :=
+  [ Copy vData (pDf i);                   (* data = data.rename(columns=...): labels are stripped while the copy is made *)
+    Nop;
+    Nop;
+    Raise;                                (* 0-3-1-5 missing non-nullable component *)
+    when (missing c) (Mutate vData TAddCol);   (* data[name] = None, on the copy *)
+    Raise;                                (* 0-3-1-15 extra columns *)
+    Raise;                                (* 0-3-1-3 / 0-3-1-4 identifiers *)
+    when (emptystr c) (Mutate vData TValues);  (* data[c] = data[c].replace("", pd.NA), on the copy *)
+    Copy vData vData;                     (* data = data.fillna(value=pd.NA) *)
+    Mutate vData TValues;                 (* casts *)
+    Raise;                                (* 0-3-1-6 *)
+    Raise ].                              (* 0-3-1-7 duplicates *)
 
 Definition block_len : nat := 12.
 
@@ -125,10 +139,10 @@ Fixpoint blocks (f : nat -> dfclass -> list op) (i : nat) (cs : list dfclass) : 
 (* validate_dataset(data_structures, {name: DataFrame}, scalar_values): structures and dicts are only read *)
 Definition validate_prelude : list op :=
   [Alias vTmp pStructs; New vTmp; Raise; Alias vTmp pDatapoints; Raise].
+Definition validate_before_fix (cs : list dfclass) : list op :=
+  validate_prelude ++ blocks validate_block_before_fix 0 cs ++ [Alias vTmp pScalars; Raise].
 Definition validate_impl (cs : list dfclass) : list op :=
   validate_prelude ++ blocks validate_block_impl 0 cs ++ [Alias vTmp pScalars; Raise].
-Definition validate_spec (cs : list dfclass) : list op :=
-  validate_prelude ++ blocks validate_block_spec 0 cs ++ [Alias vTmp pScalars; Raise].
 
 (* ---- API/__init__.py::run --------------------------------------------------------------------------------------- *)
 (* extract_datapoint_paths keeps the caller's frame (Alias); register_dataframes renames on a copy and only reads *)
